@@ -1,6 +1,7 @@
 import RsMatterVerif.Lemmas.Transport
 import RsMatterVerif.Lemmas.Dedup
 import RsMatterVerif.Lemmas.TwoNode
+import RsMatterVerif.Props.C04
 /-!
 # C09 — reliable messaging delivers each message at most once and reports the truth
 
@@ -391,23 +392,143 @@ for **every** schedule, by induction over it (`TwoNode.good_run`). -/
 
 open TwoNode in
 /-- **In order, at most once** — for every schedule, on a secure session and on an unsecured one
-(`enc`), the receiving application's log (newest first) is strictly decreasing: no message number
-twice, none after a later one. -/
+(`enc`), with any number of messages: as long as no copy of a data message has been handed to the
+receiver of an UNSECURED session later than its window is wide (`s.late = false`; on a secure
+session the flag never rises: `twoNode_late_only_unsecured`), the receiving application's log (newest
+first) is strictly decreasing: no message number twice, none after a later one.
+The hypothesis cannot be dropped: `unsecured_late_copy_is_shown_again`. -/
 theorem twoNode_in_order_at_most_once (a0 b0 : Nat) (enc : Bool) (sai : Option Nat) (evs : List Ev) (s : Sys)
-    (h : run (init a0 b0 enc sai) evs = some s) : s.app.Pairwise (· > ·) := by
+    (h : run (init a0 b0 enc sai) evs = some s) (hl : s.late = false) : s.app.Pairwise (· > ·) := by
   obtain ⟨_, _, g⟩ := good_run evs (good_init a0 b0 enc sai) h
-  exact g.sorted
+  exact g.sorted hl
 
 open TwoNode in
-/-- **Success only if the peer's stack accepted the message** — for every schedule: a send call that
-returned success was accepted by the receiver's window (its counter is among the accepted ones) and
-handed to the receiving application. -/
+/-- the ghost flag `late` rises on unsecured sessions only -/
+theorem twoNode_late_only_unsecured (a0 b0 : Nat) (sai : Option Nat) (evs : List Ev) (s : Sys)
+    (h : run (init a0 b0 true sai) evs = some s) : s.late = false := by
+  obtain ⟨_, _, g⟩ := good_run evs (good_init a0 b0 true sai) h
+  exact g.lateEnc (run_enc evs h)
+
+open TwoNode in
+/-- **In order, at most once, secure sessions** — every schedule, no side condition. -/
+theorem twoNode_in_order_at_most_once_secure (a0 b0 : Nat) (sai : Option Nat) (evs : List Ev) (s : Sys)
+    (h : run (init a0 b0 true sai) evs = some s) : s.app.Pairwise (· > ·) :=
+  twoNode_in_order_at_most_once a0 b0 true sai evs s h (twoNode_late_only_unsecured a0 b0 sai evs s h)
+
+open TwoNode in
+/-- what the ghost flag records, transition by transition: it rises exactly when a data copy is
+delivered on an unsecured session whose window is synchronised and more than `L` counters ahead of it -/
+theorem twoNode_late_step (s s' : Sys) (e : Ev) (h : step s e = some s') :
+    s'.late = (s.late || match e with
+      | .deliver (.data c _) => !(s.enc || timelyFor s.bRx c)
+      | _ => false) := by
+  cases e with
+  | send =>
+    simp only [step, Sys.sendStep] at h
+    repeat' (split at h)
+    all_goals first | (cases h; done) | (cases h; simp)
+  | retx =>
+    simp only [step, Sys.resendStep] at h
+    repeat' (split at h)
+    all_goals first | (cases h; done) | (cases h; simp)
+  | giveup =>
+    simp only [step, Sys.resendStep] at h
+    repeat' (split at h)
+    all_goals first | (cases h; done) | (cases h; simp)
+  | ackB =>
+    simp only [step, Sys.ackStep] at h
+    repeat' (split at h)
+    all_goals first | (cases h; done) | (cases h; simp)
+  | drop d =>
+    simp only [step] at h
+    split at h
+    · cases h; simp
+    · cases h
+  | dup d =>
+    simp only [step] at h
+    split at h
+    · cases h; simp
+    · cases h
+  | deliver d =>
+    simp only [step] at h
+    split at h
+    · cases d with
+      | data c i =>
+        simp only [Option.some.injEq] at h; subst h
+        unfold Sys.recvData
+        simp only
+        split <;> rfl
+      | ack bc k =>
+        simp only [Option.some.injEq] at h; subst h
+        unfold Sys.recvAck
+        simp only
+        split
+        · simp
+        · unfold Sys.afterAck
+          repeat' split
+          all_goals simp
+    · cases h
+
+open TwoNode in
+/-- **Why the hypothesis is inherent (the unsecured restart rule).** In every reachable state of an
+UNSECURED session - whatever the schedule so far - a copy of a data message that is still in flight
+while the receiver's window has moved more than `L` counters past it is, when delivered, accepted by
+the window (the code and the Matter rule take it for a restarted peer: `Dedup.PSpec.isRestart`,
+`late_copy_is_restart`) and handed to the application **again**: the message is already in its log.
+With at least `L + 2 = 18` messages on one unsecured session and an adversary that may hold a copy
+back, "at most once" cannot hold; it holds exactly up to the first such delivery
+(`twoNode_in_order_at_most_once`). -/
+theorem unsecured_late_copy_is_shown_again (a0 b0 : Nat) (sai : Option Nat) (evs : List Ev) (s : Sys)
+    (h : run (init a0 b0 false sai) evs = some s) (c i : Nat) (hin : Dg.data c i ∈ s.net)
+    (hs : s.bRx.synced = true) (hlate : c + Dedup.L < s.bRx.max) :
+    ∃ s', step s (.deliver (.data c i)) = some s' ∧ i ∈ s.app ∧ s'.app = i :: s.app ∧ s'.late = true ∧
+      s'.bRx.max = c := by
+  obtain ⟨accB, accA, g⟩ := good_run evs (good_init a0 b0 false sai) h
+  have henc : s.enc = false := run_enc evs h
+  have hc := g.netData c i hin
+  -- the window's newest counter belongs to a message of the log, newer than `i`
+  have hmax := g.maxIn hs
+  rw [g.accApp] at hmax
+  obtain ⟨j, hj, hje⟩ := List.mem_map.1 hmax
+  have hjn := g.appLt j hj
+  have hiapp : i ∈ s.app := g.done i (by omega)
+  have hr := C04.restart_accepted s.bRx c hs hlate
+  let s0 : Sys := { s with net := s.net.erase (Dg.data c i) }
+  have hw0 : (window s0.bRx c s0.enc).2 = true := by
+    show (window s.bRx c s.enc).2 = true
+    unfold window; rw [henc]; exact hr.1
+  refine ⟨s0.recvData c i, ?_, hiapp, ?_, ?_, ?_⟩
+  · simp only [step]
+    rw [if_pos (by simpa using hin)]
+  · rw [recvData_acc s0 c i hw0]
+  · rw [recvData_acc s0 c i hw0]
+    show (s.late || !(s.enc || timelyFor s.bRx c)) = true
+    have : timelyFor s.bRx c = false := by
+      unfold timelyFor
+      simp [hs]
+      omega
+    rw [henc, this]
+    simp
+  · rw [recvData_acc s0 c i hw0]
+    show (window s.bRx c s.enc).1.max = c
+    unfold window; rw [henc]; exact hr.2
+
+/-- a late copy is a *restart* in the sense of C04's specification of the unsecured window -/
+theorem late_copy_is_restart (rx : Dedup.RxState) (p : Dedup.PSpec) (c : Nat) (hp : C04.PInv rx p)
+    (hs : rx.synced = true) (hlate : c + Dedup.L < rx.max) : p.isRestart c = true :=
+  C04.isRestart_true_of_mem p c rx.max (hp.maxIn hs) hlate
+
+open TwoNode in
+/-- **Success only if the peer's stack accepted the message** — for EVERY schedule, both session
+kinds, any number of messages, restarts of an unsecured window included: a send call that returned
+success was handed to the receiving application; and while no late copy was delivered, its counter is
+among those the receiver's window (= C04's set-based specification) accepted. -/
 theorem twoNode_success_only_if_accepted (a0 b0 : Nat) (enc : Bool) (sai : Option Nat) (evs : List Ev) (s : Sys)
     (h : run (init a0 b0 enc sai) evs = some s) (i : Nat) (hok : (i, true) ∈ s.res) :
-    i ∈ s.app ∧ ∃ acc, C04.Inv s.bRx acc ∧ a0 + i ∈ acc := by
+    i ∈ s.app ∧ (s.late = false → ∃ acc, C04.Inv s.bRx acc ∧ a0 + i ∈ acc) := by
   obtain ⟨accB, _, g⟩ := good_run evs (good_init a0 b0 enc sai) h
   have hi := g.resOk i hok
-  refine ⟨hi, accB, g.winB, ?_⟩
+  refine ⟨hi, fun hl => ⟨accB, g.winB hl, ?_⟩⟩
   rw [g.accApp]
   exact List.mem_map.2 ⟨i, hi, rfl⟩
 
@@ -444,11 +565,15 @@ theorem twoNode_ack_through_succeeds (a0 b0 : Nat) (enc : Bool) (sai : Option Na
   · rw [recvAck_acc s0 bc _ hw0, afterAck_done s0 _ _ i hp.1 hcur0 hp.2]
 
 open TwoNode in
-/-- **Every received duplicate is acknowledged again** — in every reachable state, a copy of a
-message the application already has, when it is delivered, is not shown to the application again
-and is answered with a fresh acknowledgement (a new counter of the receiver). -/
+/-- **Every received duplicate is acknowledged again** — in every reachable state (any number of
+messages, both session kinds; on an unsecured session: no late copy so far and this copy is itself
+not more than `L` counters behind the receiver's window - otherwise the restart rule applies,
+`unsecured_late_copy_is_shown_again`), a copy of a message the application already has, when it is
+delivered, is not shown to the application again and is answered with a fresh acknowledgement (a new
+counter of the receiver). -/
 theorem twoNode_duplicate_acked_again (a0 b0 : Nat) (enc : Bool) (sai : Option Nat) (evs : List Ev) (s : Sys)
-    (h : run (init a0 b0 enc sai) evs = some s) (c i : Nat) (hin : Dg.data c i ∈ s.net) (hdup : i ∈ s.app) :
+    (h : run (init a0 b0 enc sai) evs = some s) (c i : Nat) (hin : Dg.data c i ∈ s.net) (hdup : i ∈ s.app)
+    (hl : s.late = false) (ht : s.enc = true ∨ timelyFor s.bRx c = true) :
     ∃ s', step s (.deliver (.data c i)) = some s' ∧ s'.app = s.app ∧
       s'.net = Dg.ack s.bCtr c :: s.net.erase (Dg.data c i) ∧ s'.bCtr = s.bCtr + 1 := by
   obtain ⟨accB, accA, g⟩ := good_run evs (good_init a0 b0 enc sai) h
@@ -456,9 +581,9 @@ theorem twoNode_duplicate_acked_again (a0 b0 : Nat) (enc : Bool) (sai : Option N
   have hacc : c ∈ accB := by
     rw [g.accApp, hc]
     exact List.mem_map.2 ⟨i, hdup, rfl⟩
-  have href := (C04.step_refines s.bRx accB c g.winB).1
+  have href := (C04.step_refines s.bRx accB c (g.winB hl)).1
   rw [C04.spec_false_mem accB c hacc] at href
-  have heq := window_data_eq g c i hc
+  have heq := window_timely s.bRx c s.enc ht
   let s0 : Sys := { s with net := s.net.erase (Dg.data c i) }
   have href0 : (window s0.bRx c s0.enc).2 = false := by
     show (window s.bRx c s.enc).2 = false
@@ -467,6 +592,15 @@ theorem twoNode_duplicate_acked_again (a0 b0 : Nat) (enc : Bool) (sai : Option N
   · simp only [step]
     rw [if_pos (by simpa using hin)]
   all_goals rw [recvData_rej s0 c i href0]
+
+open TwoNode in
+/-- … on a secure session: every copy of a message the application has, no side condition -/
+theorem twoNode_duplicate_acked_again_secure (a0 b0 : Nat) (sai : Option Nat) (evs : List Ev) (s : Sys)
+    (h : run (init a0 b0 true sai) evs = some s) (c i : Nat) (hin : Dg.data c i ∈ s.net) (hdup : i ∈ s.app) :
+    ∃ s', step s (.deliver (.data c i)) = some s' ∧ s'.app = s.app ∧
+      s'.net = Dg.ack s.bCtr c :: s.net.erase (Dg.data c i) ∧ s'.bCtr = s.bCtr + 1 :=
+  twoNode_duplicate_acked_again a0 b0 true sai evs s h c i hin hdup
+    (twoNode_late_only_unsecured a0 b0 sai evs s h) (Or.inl (run_enc evs h))
 
 open TwoNode in
 /-- **One transmission and one acknowledgement suffice** (secure sessions) — from every reachable
@@ -489,7 +623,6 @@ theorem twoNode_one_tx_one_ack_suffice (a0 b0 : Nat) (sai : Option Nat) (evs : L
     · intro a ha; have := g.accALt henc a ha; omega
   have hp := (postRecv_ack_pending s.aMrp r s.bCtr (a0 + i) hr).1 hctr.symm
   let s0 : Sys := { s with net := s.net.erase (Dg.data (a0 + i) i) }
-  have heq := window_data_eq g (a0 + i) i rfl
   have hstep1 : step s (.deliver (.data (a0 + i) i)) = some (s0.recvData (a0 + i) i) := by
     simp only [step]
     rw [if_pos (by simpa using hin)]
@@ -499,7 +632,8 @@ theorem twoNode_one_tx_one_ack_suffice (a0 b0 : Nat) (sai : Option Nat) (evs : L
     have hw0 : (window s0.bRx (a0 + i) s0.enc).2 = false := hw
     have h1 := recvData_rej s0 (a0 + i) i hw0
     let s1 : Sys := { s0 with bRx := (window s0.bRx (a0 + i) s0.enc).1, bCtr := s0.bCtr + 1,
-                              net := Dg.ack s0.bCtr (a0 + i) :: s0.net }
+                              net := Dg.ack s0.bCtr (a0 + i) :: s0.net,
+                              late := s0.late || !(s0.enc || timelyFor s0.bRx (a0 + i)) }
     let s1' : Sys := { s1 with net := s1.net.erase (Dg.ack s.bCtr (a0 + i)) }
     have hstepA : step s1 (.deliver (.ack s.bCtr (a0 + i))) = some (s1'.recvAck s.bCtr (a0 + i)) := by
       simp only [step]
@@ -517,7 +651,8 @@ theorem twoNode_one_tx_one_ack_suffice (a0 b0 : Nat) (sai : Option Nat) (evs : L
     have hw0 : (window s0.bRx (a0 + i) s0.enc).2 = true := hw
     have h1 := recvData_acc s0 (a0 + i) i hw0
     let s1 : Sys := { s0 with bRx := (window s0.bRx (a0 + i) s0.enc).1,
-                              bMrp := (s0.bMrp.postRecv (a0 + i) none true 0).1, app := i :: s0.app }
+                              bMrp := (s0.bMrp.postRecv (a0 + i) none true 0).1, app := i :: s0.app,
+                              late := s0.late || !(s0.enc || timelyFor s0.bRx (a0 + i)) }
     have hack : s1.bMrp.ack = some { ctr := a0 + i, acked := false } := by
       show (s.bMrp.postRecv (a0 + i) none true 0).1.ack = _
       rw [postRecv_noAck]
@@ -552,11 +687,12 @@ theorem twoNode_one_tx_one_ack_suffice (a0 b0 : Nat) (sai : Option Nat) (evs : L
 open TwoNode in
 /-- **Soundness of the trace monitor**: a log of observed events the driver accepts
 (`acceptsTrace`) is the trace of a schedule of the model, so everything proved above about every
-schedule holds for the run that produced it — in particular the log it ends with is in order and
-at-most-once, and every call it reports as successful was accepted by the receiver. -/
+schedule holds for the run that produced it — in particular every call it reports as successful
+reached the receiving application, and, unless the model saw a late copy on an unsecured session
+(`s.late`, which the driver reports), the log it ends with is in order and at-most-once. -/
 theorem accepted_trace_is_a_run (a0 b0 : Nat) (enc : Bool) (sai : Option Nat) (os : List Obs) (s : Sys)
     (h : acceptsTrace (init a0 b0 enc sai) os = .ok s) :
-    (∃ evs, run (init a0 b0 enc sai) evs = some s) ∧ s.app.Pairwise (· > ·) ∧
+    (∃ evs, run (init a0 b0 enc sai) evs = some s) ∧ (s.late = false → s.app.Pairwise (· > ·)) ∧
     ∀ i, (i, true) ∈ s.res → i ∈ s.app := by
   obtain ⟨evs, hrun⟩ := acceptsTrace_run _ _ _ h
   exact ⟨⟨evs, hrun⟩, twoNode_in_order_at_most_once a0 b0 enc sai evs s hrun,
@@ -564,22 +700,16 @@ theorem accepted_trace_is_a_run (a0 b0 : Nat) (enc : Bool) (sai : Option Nat) (o
 
 /-- The receive window of an unsecured session (`enc = false`, the other half of the harness's
 system-level flows) differs from the secure one only for counters more than the window width behind
-the newest one — out of reach while at most 17 messages have been sent on the session (the bound
-the two-node model puts on an unsecured sender; `TwoNode.window_data_eq`). -/
+the newest one (`TwoNode.window_timely` is this statement for the two-node model). -/
 theorem unsecured_window_differs_only_behind (s : Dedup.RxState) (c : Nat)
     (h : s.synced = false ∨ s.max ≤ c + Dedup.L) :
     Dedup.postRecvPlain s c false = Dedup.postRecvPlain s c true := by
-  unfold Dedup.postRecvPlain
-  rcases h with h | h
-  · simp [h]
-  · by_cases h1 : s.synced = false
-    · simp [h1]
-    · by_cases h2 : c = s.max
-      · simp [h1, h2]
-      · by_cases h3 : c > s.max
-        · simp [h1, h2, h3]
-        · have : s.max - c ≤ Dedup.L := by omega
-          simp [h1, h2, h3, this]
+  have := TwoNode.window_timely s c false (Or.inr (by
+    unfold TwoNode.timelyFor
+    rcases h with h | h
+    · simp [h]
+    · simp [h]))
+  exact this
 
 /-- non-vacuity of the two-node theorems: a schedule with a lost first transmission, a
 retransmission, a duplicated datagram whose second copy is acknowledged afresh, and a second message -/
@@ -587,16 +717,48 @@ example :
     (TwoNode.run (TwoNode.init 100 500)
       [.send, .drop (.data 100 0), .retx, .dup (.data 100 0), .deliver (.data 100 0), .ackB,
        .deliver (.data 100 0), .deliver (.ack 500 100), .send, .deliver (.data 101 1), .ackB,
-       .deliver (.ack 501 100), .deliver (.ack 502 101)]).map (fun s => (s.app, s.res, s.net)) =
-    some ([1, 0], [(1, true), (0, true)], []) := by
+       .deliver (.ack 501 100), .deliver (.ack 502 101)]).map (fun s => (s.app, s.res, s.net, s.late)) =
+    some ([1, 0], [(1, true), (0, true)], [], false) := by
   decide
 
 /-- … and on an unsecured session (`enc = false`): same schedule, same outcome -/
 example :
     (TwoNode.run (TwoNode.init 100 500 false)
       [.send, .drop (.data 100 0), .retx, .dup (.data 100 0), .deliver (.data 100 0), .ackB,
-       .deliver (.data 100 0), .deliver (.ack 500 100), .send]).map (fun s => (s.app, s.res, s.cur)) =
-    some ([0], [(0, true)], some 1) := by
+       .deliver (.data 100 0), .deliver (.ack 500 100), .send]).map (fun s => (s.app, s.res, s.cur, s.late)) =
+    some ([0], [(0, true)], some 1, false) := by
+  decide
+
+/-- one round of a schedule without faults: message `i` is sent, delivered, acknowledged -/
+def cleanRound (a0 b0 i : Nat) : List TwoNode.Ev :=
+  [.send, .deliver (.data (a0 + i) i), .ackB, .deliver (.ack (b0 + i) (a0 + i))]
+
+/-- the schedule of `unsecured_late_copy_is_shown_again`: the first transmission of message 0 is
+duplicated, one copy stays in the network while 18 messages go through, then it is delivered -/
+def lateSchedule (a0 b0 n : Nat) : List TwoNode.Ev :=
+  [.send, .dup (.data a0 0), .deliver (.data a0 0), .ackB, .deliver (.ack b0 a0)] ++
+    ((List.range n).map (fun k => cleanRound a0 b0 (k + 1))).flatten ++ [.deliver (.data a0 0)]
+
+/-- **the bound is inherent, concretely**: on an unsecured session, 18 messages and ONE held-back copy:
+message 0 is in the receiving application's log twice (and all 18 calls reported success) … -/
+example :
+    (TwoNode.run (TwoNode.init 100 500 false) (lateSchedule 100 500 17)).map
+      (fun s => (s.app.head?, s.app.length, s.res.length, s.res.all (·.2), s.late, s.bRx.max)) =
+    some (some 0, 19, 18, true, true, 100) := by
+  decide
+
+/-- … with 17 messages the same copy is still inside the window: rejected, acknowledged again … -/
+example :
+    (TwoNode.run (TwoNode.init 100 500 false) (lateSchedule 100 500 16)).map
+      (fun s => (s.app.head?, s.app.length, s.late, s.net)) =
+    some (some 16, 17, false, [TwoNode.Dg.ack 517 100]) := by
+  decide
+
+/-- … and on a secure session the late copy is rejected whatever the number of messages -/
+example :
+    (TwoNode.run (TwoNode.init 100 500 true) (lateSchedule 100 500 17)).map
+      (fun s => (s.app.head?, s.app.length, s.late, s.net)) =
+    some (some 17, 18, false, [TwoNode.Dg.ack 518 100]) := by
   decide
 
 end C09
